@@ -4,6 +4,8 @@ package @PKG@
 
 import (
 	"fmt"
+	"os"
+	"runtime"
 	"sync/atomic"
 
 	"github.com/gontainer/gontainer-helpers/v3/container"
@@ -15,10 +17,18 @@ const FixturePkg = "@PATH@"
 // Counters of constructor / function invocations (for the concurrency probes).
 var Invocations = map[string]*int64{}
 
+// GV_YIELD=1: every counted constructor / function gives up the processor a few times (widens check-then-act windows)
+var yield = os.Getenv("GV_YIELD") != ""
+
 func count(name string) {
 	// the map is filled at init time only, so concurrent reads are fine
 	if c, ok := Invocations[name]; ok {
 		atomic.AddInt64(c, 1)
+	}
+	if yield {
+		for i := 0; i < 4; i++ {
+			runtime.Gosched()
+		}
 	}
 }
 
@@ -60,6 +70,13 @@ func MakeC(args ...interface{}) *T   { count("MakeC"); return mk("MakeC", args) 
 func Build(args ...interface{}) *T   { count("Build"); return mk("Build", args) }
 func Provide(args ...interface{}) *T { count("Provide"); return mk("Provide", args) }
 func New(args ...interface{}) *T     { count("New"); return mk("New", args) }
+
+// user symbols named like identifiers the generated constructor declares itself
+func newService(args ...interface{}) *T      { return mk("newService", args) }
+func getParam(args ...interface{}) *T        { return mk("getParam", args) }
+func callProvider(args ...interface{}) *T    { return mk("callProvider", args) }
+func dependencyValue(args ...interface{}) *T { return mk("dependencyValue", args) }
+func getEnv(args ...interface{}) *T          { return mk("getEnv", args) }
 
 // NewFailing is a constructor that always fails.
 func NewFailing(args ...interface{}) (*T, error) { return nil, fmt.Errorf("constructor failed on purpose") }
